@@ -16,7 +16,9 @@ def guarded(fn, expected=()):
             raise
         except expected:
             pass
-        except Exception as ex:
+        except BaseException as ex:
+            if pysym.PENDING["kind"] is not None or not isinstance(ex, Exception):
+                raise
             tb = traceback.extract_tb(ex.__traceback__)
             where = ""
             for fr in reversed(tb):
